@@ -32,11 +32,13 @@ BUDGET = {"quick": 120, "thorough": 600}
 
 def gen_cases(rng, tier):
     cases = []
-    lens = [3, 4, 5, 8, 17, 32, 33, 64, 127] if tier == "quick" else [2, 3, 4, 5, 7, 8, 9, 16, 17, 31, 32, 33, 64, 65, 127, 128, 251, 256]
+    lens = [1, 2, 3, 4, 5, 8, 17, 32, 33, 64, 127] if tier == "quick" else [1, 2, 3, 4, 5, 7, 8, 9, 16, 17, 31, 32, 33, 64, 65, 127, 128, 251, 256]
     reps = 3 if tier == "quick" else 8
     # every way of configuring the sampling grid, integer and NON-integer fs/R included (the filter lives on gv.fs)
     gvs = [{"sps": 16, "R": 10e9}, {"sps": 8, "R": 1e9}, {"sps": 5, "R": 40e9}, {"sps": 33, "R": 2.5e9},
-           {"R": 10e9, "fs": 25e9}, {"R": 28e9, "fs": 50e9}, {"fs": 12.4e9}, {"sps": 8, "fs": 80e9}]
+           {"R": 10e9, "fs": 25e9}, {"R": 28e9, "fs": 50e9}, {"fs": 12.4e9}, {"sps": 8, "fs": 80e9},
+           # a slot count N in force (gv.t / gv.w / gv.dw exist for N*sps points) while the field has another length
+           {"sps": 16, "R": 1e9, "N": 8}, {"R": 10e9, "fs": 25e9, "N": 4}, {"sps": 4, "R": 10e9, "N": 3}]
     for n in lens:
         for npol in (1, 2):
             for _ in range(reps):
